@@ -1288,6 +1288,9 @@ func nodeRun(c *verifeng.Chooser, f *nodeFix, env *verifhfs.Env, mode nodeMode, 
 		ConnectPeers: addrs,
 		Dialer:       h.dial,
 		NameResolver: func(host string) ([]net.IP, error) { return []net.IP{net.ParseIP(host)}, nil },
+		// in the Stop scenarios filters are also written to the database,
+		// through the batch writer (one more subsystem to shut down in order)
+		PersistToDisk: mode.name == "C17" && !mode.long,
 	})
 	if err != nil {
 		panic(verifeng.InfraError{Msg: "NewChainService: " + err.Error()})
